@@ -103,7 +103,9 @@ CLAIMS = {
          "(Model/CSpecMachine.v) accepts is reproduced exactly by the C model without panic on every PlatformOK platform; "
          "C06_machine_equals_rust: on new/update/finalize/reset histories the C model and the Rust model give the same bytes; the 18 "
          "loop-free functions of c/blake3.c (initialisers, reset, chunk-state and output helpers, finalize, update) are TRANSLATED "
-         "statement by statement (gen/GenCHasherSmall.v) and proved equal to the model.",
+         "statement by statement (gen/GenCHasherSmall.v) and proved equal to the model; chunk_state_update, hasher_merge_cv_stack, "
+         "hasher_push_cv and blake3_hasher_finalize_seek (four while loops, flat cv_stack indexing) are TRANSLATED statement by "
+         "statement (gen/GenCHasherLoops.v) and proved equal to the hand-written loops at every fuel, Panic codes included.",
          "The kernels behind the dispatcher are the platform record (PlatformOK, tied by C05 and by the five feature masks run "
          "here); blake3_hasher_init_derive_key (NUL-terminated string) is modelled as strlen + the raw initialiser; the TBB path is C08.",
          "Coq proof of the C hasher model (full refinement) + differential run of the real C library in 2 builds x 5 feature masks"),
@@ -161,7 +163,10 @@ CLAIMS = {
          "merging, popcount rule, capacity 55) by induction; END TO END (C02_machine_refines_spec): every history over the whole "
          "case language (hashers, readers, offsets, merges, trait operations) that the specification-only machine accepts is "
          "reproduced exactly by the implementation machine, without panic, on every PlatformOK platform; the function items of "
-         "lib.rs are translated and must equal the list the model was written against. update_rayon/mmap wrappers are C08/C11.",
+         "lib.rs are translated and must equal the list the model was written against; ChunkState::count/fill_buf/output/update "
+         "and Hasher::merge_cv_stack/push_cv/reset/final_output/finalize/finalize_xof/count of src/lib.rs (with their three while "
+         "loops) are TRANSLATED statement by statement (gen/GenLibLoops.v) and proved equal to the model functions at every "
+         "argument and every fuel (C02_lib_src_*). update_rayon/mmap wrappers are C08/C11.",
          "Coq proof (stack invariant by induction over operations) + correspondence"),
  "C09": ("Coq theorems (Props/C09.v): helper formulas on all of u64 (translated source text), subtree/merge statements; "
          "correspondence on random decompositions, fixed groups, offsets up to 2^54-64 chunks, documented misuse panics.",
